@@ -46,6 +46,8 @@ pub fn det_corpus() -> Vec<String> {
     for k in ["", "_", "@", "$", "!"] {
         v.push(format!("r = {}{{ \"a\" ~ (s | \"b\"){{2}} }}\ns = {}{{ &\"c\" ~ r? ~ \"c\" }}", k, k));
     }
+    // a skip-until with many delimiters (the generator stores them as one array constant)
+    v.push("w = @{ (!(\"ab\" | \"cd\" | \"ef\" | \"gh\" | \"ij\" | \"kl\" | \"mn\" | \"op\" | \"qr\" | \"st\") ~ ANY)* ~ \"x\"? }\nv = { w ~ w? }".to_string());
     v
 }
 
@@ -155,6 +157,11 @@ pub fn run(o: &Opts) -> Report {
 /// Reference cycles of length 1..6 in three declaration orders, with / without leading and trailing leaf rules.
 pub fn cycle_sources() -> Vec<(usize, String)> {
     let mut out = vec![];
+    // compound-atomic rules keep their content too: cycles made only of `$` rules
+    for n in [1usize, 2, 3, 4] {
+        let cyc: Vec<String> = (0..n).map(|i| if n == 1 { "r0 = ${ \"(\" ~ r0? ~ \")\" }".to_string() } else { format!("r{} = ${{ \"a\" ~ (r{} | \"b\") }}", i, (i + 1) % n) }).collect();
+        out.push((n.max(3), format!("{}\ntail = {{ \"t\" }}", cyc.join("\n"))));
+    }
     for n in 1..=6usize {
         for order in 0..3 {
             for (lead, trail) in [(false, false), (true, false), (false, true), (true, true)] {
